@@ -383,9 +383,54 @@ func histPermHook(seed uint64, steps int, mode replicaMode) ([]string, int) {
 	return t.Lines, sensitive
 }
 
+// histGenesisDecoding: genesis documents as an operator might hand-write them (chain types in every spelling, partial and
+// ambiguous names, numbers, wrong types) are decoded, validated and imported; every node must reach the same verdict and,
+// where it accepts, the same state.
+func histGenesisDecoding(seed uint64, steps int, mode replicaMode) ([]string, int) {
+	t := &sim.Transcript{}
+	src := newL1Env(2, []time.Duration{5 * time.Second, 7 * time.Second})
+	base := string(l1ExportJSON(src.L1))
+	cur := ""
+	for _, cand := range []string{`"INITIA"`, `"CHAIN_TYPE_INITIA"`, `"initia"`} {
+		if strings.Contains(base, `"chain_type":`+cand) {
+			cur = `"chain_type":` + cand
+		}
+	}
+	t.Add("BASE has chain type spelled %s", cur)
+	n := 0
+	for _, v := range []string{`"INITIA"`, `"initia"`, `"Celestia"`, `"CHAIN_TYPE_INITIA"`, `"tia"`, `"IA"`, `""`, `"A"`, `"UNSPECIFIED"`, `"unspecified"`, `"TYPE_INITIA"`, `"_"`, `1`, `2`, `0`, `99`, `"1"`, `null`, `true`, `["INITIA"]`, `"INITIA "`, `" INITIA"`} {
+		doc := base
+		if cur != "" {
+			doc = strings.Replace(base, cur, `"chain_type":`+v, 1)
+		}
+		verdict := func() (out string) {
+			defer func() {
+				if r := recover(); r != nil {
+					out = fmt.Sprintf("panic: %v", r)
+				}
+			}()
+			dst := sim.NewL1(sim.L1Opts{})
+			var gs ophosttypes.GenesisState
+			if err := dst.Enc.Codec.UnmarshalJSON([]byte(doc), &gs); err != nil {
+				return "decode error: " + err.Error()
+			}
+			if err := ophosttypes.ValidateGenesis(&gs, dst.AK.AddressCodec()); err != nil {
+				return "validate error: " + err.Error()
+			}
+			dst.AK.InitGenesis(dst.Ctx, *src.L1.AK.ExportGenesis(src.L1.Ctx))
+			dst.BK.InitGenesis(dst.Ctx, src.L1.BK.ExportGenesis(src.L1.Ctx))
+			dst.K.InitGenesis(dst.Ctx, &gs)
+			return "imported, state " + sim.Digest(dst.Dump(ophosttypes.StoreKey)) + " export " + sim.Digest([]sim.KV{{Value: l1ExportJSON(dst)}})
+		}()
+		t.Add("GENESIS chain_type=%s -> %s", v, verdict)
+		n++
+	}
+	return t.Lines, n
+}
+
 // ---- out-of-process replica ----
 
-var c18Hists = []c18History{{"two-chain", histTwoChain}, {"validators", histValidators}, {"oracle", histOracle}, {"l1-world", histL1World}, {"perm-hook", histPermHook}, {"oracle-clock", histOracleClock}}
+var c18Hists = []c18History{{"two-chain", histTwoChain}, {"validators", histValidators}, {"oracle", histOracle}, {"l1-world", histL1World}, {"perm-hook", histPermHook}, {"oracle-clock", histOracleClock}, {"genesis-decoding", histGenesisDecoding}}
 
 // C18Child is the entry point of the child process: it runs one history and writes its transcript to out.
 func C18Child(name string, seed uint64, steps, modeIdx int, anchor int64, out string) error {
